@@ -53,7 +53,7 @@ CHECKS = {'C03': {'level': 'exploration',
                          '(direction, parameter set) pairs)',
                          'functions, dimensions, starting points and parameter values outside the lattice are not '
                          'covered'],
-         'deadline': {'quick': 300, 'thorough': 1500},
+         'deadline': {'quick': 600, 'thorough': 2400},
          'stages': [{'name': 'bundle',
                      'harness': 'c03_bundle',
                      'args': ['--stage', 'bundle'],
